@@ -5,6 +5,9 @@ CXX := g++
 SAN := -fsanitize=address,undefined -fno-sanitize=pointer-overflow,nonnull-attribute,null -fno-sanitize-recover=undefined -fno-omit-frame-pointer
 COMMON := -O1 -g1 -DNDEBUG -I$(REPO)/include -Wno-deprecated-declarations -MMD -MP $(SAN)
 MEM_GROUPS := a b c d e f g
+# C01/C10 quantify over all row alignments, including ones that misalign 16/32-bit channels (gil then makes misaligned
+# accesses, which x86 tolerates and which no property forbids): the alignment check would drown the bounds oracle
+MEM_SAN := -fno-sanitize=alignment
 MEM14_OBJS := $(B)/mem14/memsim_main.o $(foreach g,$(MEM_GROUPS),$(B)/mem14/group_$(g).o)
 MEM17_OBJS := $(B)/mem17/memsim_main.o $(foreach g,$(MEM_GROUPS),$(B)/mem17/group_$(g).o)
 
@@ -55,10 +58,10 @@ mem: $(B)/bin/memsim14 $(B)/bin/memsim17
 
 $(B)/mem14/%.o: sim/mem/%.cpp Makefile
 	@mkdir -p $(@D)
-	@$(CXX) -std=c++14 $(COMMON) -c $< -o $@ 2> $@.log || { cat $@.log | head -60; echo "BUILD-FAIL $@"; exit 1; }
+	@$(CXX) -std=c++14 $(COMMON) $(MEM_SAN) -c $< -o $@ 2> $@.log || { cat $@.log | head -60; echo "BUILD-FAIL $@"; exit 1; }
 $(B)/mem17/%.o: sim/mem/%.cpp Makefile
 	@mkdir -p $(@D)
-	@$(CXX) -std=c++17 $(COMMON) -c $< -o $@ 2> $@.log || { cat $@.log | head -60; echo "BUILD-FAIL $@"; exit 1; }
+	@$(CXX) -std=c++17 $(COMMON) $(MEM_SAN) -c $< -o $@ 2> $@.log || { cat $@.log | head -60; echo "BUILD-FAIL $@"; exit 1; }
 $(B)/bin/memsim14: $(MEM14_OBJS)
 	@mkdir -p $(@D)
 	@$(CXX) $(SAN) $^ -o $@
